@@ -55,6 +55,7 @@ impl Transaction {
 //@stub Transaction::sighash_bip143
 //@fn Transaction::sighash_legacy
 //@fn Transaction::sighash_preimage_impl
+//@wrapper Transaction::sighash_preimage @ src/transaction/sighash.rs = Transaction::sighash_preimage_impl
 //@stubrest Transaction
 }
 //@prooffn SigHash::flag_values spec/sighash_table.rs @ src/transaction/sighash.rs
